@@ -69,6 +69,11 @@ def boundary_histories(rnd, thorough):
             if L - extra < 0 or L - extra > 65535:
                 continue
             specs.append((None, [ct.disk_file(rnd, "F", kind, L)]))
+    addrs = [0, 1, 0x7F, 0x80, 0xFF, 0x100, 0x101, 0xFFF, 0x1000, 0x7FFF, 0x8000, 0xFF00, 0xFFFF]
+    for i, a in enumerate(addrs):                      # load / entry addresses at every byte boundary
+        f = ct.disk_file(rnd, "AD%d" % i, "ML", 40)
+        f["a1"], f["a2"] = a, addrs[(i * 5 + 2) % len(addrs)]
+        specs.append((None, [f]))
     for nm, ext in (("A", "BIN"), ("ABCDEFGH", "BIN"), ("ABCDEFGHI", "BIN"), ("abcdefghijkl", "bas"), ("lower", ""), ("Mixed1", "Tx"), ("X1", "ABCD")):
         specs.append((None, [ct.disk_file(rnd, nm, "ML", 100, ext=ext)]))
     return specs
